@@ -980,6 +980,16 @@ func ParseCIDR(cidr string) ([]*net.IPNet, error) {
 		if err != nil {
 			return nil, fmt.Errorf("invalid CIDR %q", cidr)
 		}
+		// An IPv4-mapped IPv6 CIDR (::ffff:a.b.c.d/len) denotes an IPv4 network. Keep it in the
+		// canonical 4-byte form: with the 16-byte form the mask length (len) and the length the
+		// network actually matches with (len-96) differ, which defeats the overlap checks.
+		if ip4 := n.IP.To4(); ip4 != nil && len(n.IP) == net.IPv6len {
+			ones, _ := n.Mask.Size()
+			if ones < 96 {
+				return nil, fmt.Errorf("invalid CIDR %q: IPv4-mapped prefix shorter than /96", cidr)
+			}
+			n = &net.IPNet{IP: ip4, Mask: net.CIDRMask(ones-96, 8*net.IPv4len)}
+		}
 		return []*net.IPNet{n}, nil
 	}
 
